@@ -146,8 +146,12 @@ impl<M: MovingAverageConstructor> IndicatorInstance for RelativeStrengthIndexIns
 		let pos: ValueType = self.posma.next(&change.max(0.));
 		let neg: ValueType = self.negma.next(&change.min(0.)) * -1.;
 
-		let value = if pos != 0. || neg != 0. {
-			debug_assert!(pos + neg != 0.);
+		// Both averages are non-negative by definition, but incrementally updated averages may be left with
+		// a tiny residue of either sign after the price stops moving.
+		let pos = pos.max(0.);
+		let neg = neg.max(0.);
+
+		let value = if pos + neg > 0. {
 			pos / (pos + neg)
 		} else {
 			0.5
